@@ -2,7 +2,7 @@
 from __future__ import annotations
 import re
 from ..astq import Node, up, strip, strip_cast, walk_no_nested_fn, calls, loc, stmt_of, dominates, binding_before, precedes_toplevel
-from ..rules.layout import consumptions, from_bytes_reads, origin, int_value
+from ..rules.layout import consumptions, from_bytes_reads, origin, int_value, yielded_name
 from ..spec import bbi_format as F
 
 R = "bigtools/src/bbi/bbiread.rs"
@@ -120,17 +120,33 @@ HEADER_FIELD = {"version": "version", "zoomLevels": "zoom_levels", "chromosomeTr
                 "totalSummaryOffset": "total_summary_offset", "uncompressBufSize": "uncompress_buf_size"}
 
 
-def _arm_tail_tuple(arm):
+def _arm_tail_expr(arm):
     b = arm["body"]
-    if b.k == "block" and b["stmts"] and b["stmts"][-1].k == "expr_stmt" and not b["stmts"][-1]["semi"]:
-        t = strip(b["stmts"][-1]["e"])
-        if t.k == "tuple":
-            return [up(strip(e)) for e in t["elems"]]
-        return [up(t)]
-    t = strip(b)
+    if b.k == "block":
+        if b["stmts"] and b["stmts"][-1].k == "expr_stmt" and not b["stmts"][-1]["semi"]:
+            return strip(b["stmts"][-1]["e"])
+        return None
+    return strip(b)
+
+
+def _arm_tail_tuple(arm):
+    """names of what the arm yields (variables, or the synthetic names of reads yielded in place)"""
+    t = _arm_tail_expr(arm)
+    if t is None:
+        return None
     if t.k == "tuple":
-        return [up(strip(e)) for e in t["elems"]]
+        return [yielded_name(e) for e in t["elems"]]
+    if arm["body"].k == "block":
+        return [yielded_name(t)]
     return None
+
+
+def _arm_tail_struct(arm, struct_name):
+    """{field: yielded name} when the arm yields a `struct_name` literal directly"""
+    t = _arm_tail_expr(arm)
+    if t is None or t.k != "struct" or not t["path"].endswith(struct_name):
+        return None
+    return {x["name"]: yielded_name(x["e"]) for x in t["fields"]}
 
 
 def ob_read_info(ctx, res):
@@ -425,8 +441,12 @@ def ob_read_chrom_tree_block(ctx, res):
     key_p = "p%d" % (len(fn.params) - 1)
 
     def buf_ok(block, what):
-        for node, sz in bufs:
-            if node.order > block.order and _inside(node, block):
+        # the buffer allocated in the arm, or one allocation hoisted in front of the leaf / non-leaf test (after the node header)
+        cand = [(node, sz) for node, sz in bufs if node.order > block.order and _inside(node, block)]
+        if not cand:
+            cand = [(node, sz) for node, sz in bufs if head_takes[-1].node.order < node.order < iff.order]
+        for node, sz in cand:
+            if True:
                 s = up(strip(sz)).replace(" ", "")
                 o = origin(fn, sz)
                 if re.fullmatch(r"\(\(%s\+lit:8\)\*%s\)" % (re.escape(key_p), ".*"), o) or re.fullmatch(r"\(.*\*\(%s\+lit:8\)\)" % re.escape(key_p), o):
@@ -603,6 +623,7 @@ def _items_iter(ctx, res, iter_ty, alloc_fn, spec, struct_name, fieldmap, what):
         return
     m, big, lit = ms[0]
     okall = True
+    ndirect = 0
     for arm, en in ((big, "be"), (lit, "le")):
         reads = from_bytes_reads(arm["body"])
         if len(reads) != len(spec):
@@ -622,11 +643,23 @@ def _items_iter(ctx, res, iter_ty, alloc_fn, spec, struct_name, fieldmap, what):
                 res.fail("%s[%s]/%s/type" % (what, en, fname), r_["node"], "%s decoded as %s, format says %s" % (fname, r_["ty"], want_ty))
                 okall = False
             pos += w
+        direct = _arm_tail_struct(arm, struct_name)
+        if direct is not None:
+            ndirect += 1
+            for r_, (fname, w, kind) in zip(reads, spec):
+                if direct.get(fieldmap[fname]) != r_["bound"]:
+                    res.fail("%s/%s/flow" % (what, fname), arm, "%s.%s must receive slot %s" % (struct_name, fieldmap[fname], fname))
+                    okall = False
+            continue
         tail = _arm_tail_tuple(arm)
         if tail != [r_["bound"] for r_ in reads]:
             res.fail("%s[%s]/tail" % (what, en), arm, "arm must yield the decoded fields in order")
             okall = False
     if not okall:
+        return
+    if ndirect == 2:
+        res.ok(nxt, "%s: stride %d, fields at ascending byte ranges, both byte orders, -> %s fields (literal built in each arm)" % (what, size, struct_name))
+        _items_alloc(ctx, res, alloc_fn, size, what)
         return
     st = stmt_of(m)
     names = [up(e) for e in st["pat"]["elems"]] if st is not None and st.k == "let" and st["pat"].k == "p_tuple" else None
@@ -640,6 +673,10 @@ def _items_iter(ctx, res, iter_ty, alloc_fn, spec, struct_name, fieldmap, what):
             res.fail("%s/%s/flow" % (what, fname), sl[0], "%s.%s must receive slot %s" % (struct_name, fieldmap[fname], fname))
             return
     res.ok(nxt, "%s: stride %d, fields at ascending byte ranges, both byte orders, -> %s fields" % (what, size, struct_name))
+    _items_alloc(ctx, res, alloc_fn, size, what)
+
+
+def _items_alloc(ctx, res, alloc_fn, size, what):
     # allocation factor
     af = ctx.ast.fn(R, alloc_fn)
     ok = False
@@ -926,8 +963,21 @@ def ob_bed_block_r(ctx, res):
         res.fail("bedRecordR/flow", lits[0], "BedEntry.start/end must be the 2nd/3rd u32 of the record")
         return
     # minimum length guard 12
-    g = [n for n in walk_no_nested_fn(fn.body) if n.k == "if" and re.fullmatch(r"\w+\.len\(\) < (\d+)", up(strip(n["cond"])))]
-    if len(g) != 1 or int(re.fullmatch(r"\w+\.len\(\) < (\d+)", up(strip(g[0]["cond"]))).group(1)) != 12:
+    g = []
+    for n in walk_no_nested_fn(fn.body):
+        c_ = strip(n["cond"]) if n.k == "if" else None
+        if c_ is None or c_.k != "binary" or c_["op"] not in ("<", ">", "<=", ">="):
+            continue
+        l_, r_, op_ = c_["l"], c_["r"], c_["op"]
+        if op_ in (">", ">="):
+            l_, r_, op_ = r_, l_, {">": "<", ">=": "<="}[op_]
+        iv = int_value(r_, ctx.ast, RB)
+        if re.fullmatch(r"\w+\.(len|remaining)\(\)", up(strip(l_))) and iv is not None:
+            g.append(iv if op_ == "<" else iv + 1)
+    if not g:
+        res.undecided("bedRecordR/minlen", fn, "end-of-block test (`remaining < 12`) not located")
+        return
+    if g != [12]:
         res.fail("bedRecordR/minlen", fn, "end-of-block test must be `remaining < 12` (the fixed part of a record)")
         return
     # rest: up to first NUL, NUL consumed
@@ -1020,6 +1070,14 @@ def ob_summary_r(ctx, res):
                 if c["op"] == ">" and sides[0] is not other[0]:
                     continue
                 ifs.append((n, n["then"], n["else"]) if c["op"] in ("!=", ">") else (n, n["else"], n["then"]))
+        # `match offset { 0 => zeros, other => read }`
+        for n in walk_no_nested_fn(fn.body):
+            if n.k != "match" or len(n["arms"]) != 2 or "total_summary_offset" not in origin(fn, n["scrut"]):
+                continue
+            za = [a for a in n["arms"] if a["pat"].k == "p_lit" and up(a["pat"]) in ("0", "0u64") and a.get("guard") is None]
+            oa = [a for a in n["arms"] if a["pat"].k in ("p_ident", "p_wild") and a.get("guard") is None]
+            if len(za) == 1 and len(oa) == 1:
+                ifs.append((n, oa[0]["body"], za[0]["body"]))
         if len(ifs) != 1:
             if not any("total_summary_offset" in up(n["cond"]) for n in walk_no_nested_fn(fn.body) if n.k in ("if", "match") and n.get("cond") is not None):
                 res.fail("summaryR/%s/v1" % impl, fn, "a zero summary offset (version 1 files) must yield zeros instead of reading at offset 0")
